@@ -27,7 +27,9 @@ def self_normaliser(ctx, ci: ClassInfo) -> Normaliser:
             return repr(e.value)
         return None
 
-    return Normaliser(term)
+    n = Normaliser(term)
+    n.base_term = term
+    return n
 
 
 def private_stores(ci: ClassInfo, fld: str):
@@ -71,7 +73,8 @@ def parameter_bounds(ctx, res: Result, ci: ClassInfo) -> None:
             if isinstance(st, ast.AugAssign) or isinstance(st, ast.Call):
                 res.bad("E-bounded-write", inst, fi.site(st), fi.qualname, "bounded field changed by an augmented assignment / setattr: new value is not the checked term", construct=src(st))
                 continue
-            E = norm.term(st.value)
+            norm_f = Normaliser(norm.base_term, fn=fi.node)
+            E = norm_f.term(st.value)
             if fi.name == "__init__" and reqs == "value":
                 # bounds do not exist yet: they must be installed afterwards through the checked setters
                 later = [x for x in walk_no_nested(fi.node) if isinstance(x, ast.Attribute) and isinstance(x.ctx, ast.Store) and isinstance(x.value, ast.Name) and x.value.id == "self" and x.attr in ("min_bound", "max_bound")]
@@ -79,7 +82,7 @@ def parameter_bounds(ctx, res: Result, ci: ClassInfo) -> None:
                 res.add(bool(later) and not raw, "E-bounded-write", inst, fi.site(st), fi.qualname,
                         "constructor installs bounds only through the checked setters after the value", "constructor writes a bound field directly (unchecked against the value)", construct=src(st))
                 continue
-            facts = facts_at(fi.node, st, norm) or []
+            facts = facts_at(fi.node, st, norm_f) or []
             if reqs == "value":
                 required = [frozenset({Lit("is", MIN, "None"), canon(">=", E, MIN)}), frozenset({Lit("is", MAX, "None"), canon("<=", E, MAX)})]
             elif reqs == "min":
